@@ -455,7 +455,7 @@ def whitespace_rule(ctx, facts):
         def expr(I_, st, ty, text=text):
             return ('str', RT.new_string(I_, st, RT.XText(lit(text), {}, False)))
         I.return_partition[EXPR] = lambda I_, st, v: id(st)
-        N.run(EXPR, overrides={'expression': expr}, variants=('fixed',))
+        N.run(EXPR, overrides={'expression@1': expr}, variants=('fixed',))
         res = [rv for _a, _s, outs in N.results.get(EXPR, []) for _st, rv in outs]
         total += 1
         if want is None:
